@@ -138,7 +138,10 @@ def main():
     for run in coded:
         for cc in run.tagged("CASE"):
             c = by_key.get(json.dumps([cc["files"], cc["flags"]], sort_keys=True))
-            if c is None or not cc["why"] or not any(cc[k] != c[k] for k in ("final1", "status1", "final2", "status2")):
+            if c is None or not cc["why"]:
+                continue
+            c["special"] = True      # the pinned code's recorded events differ here even where the outcome does not: not traced
+            if not any(cc[k] != c[k] for k in ("final1", "status1", "final2", "status2")):
                 continue
             a = {k: cc[k] for k in ("why", "final1", "status1", "final2", "status2")}
             if a not in c.setdefault("alts", []):
@@ -165,10 +168,10 @@ def main():
     os.makedirs(work)
     tpath = os.path.join(sc, "trace.ndjson")
     reps = 10 if thorough else 2                  # hooked (recorded + perturbed) repetitions per case
-    max_hooked = 8000 if thorough else 500
+    max_hooked = 8000 if thorough else 600
     env = vlib.goenv()
     env["GORACE"] = "halt_on_error=1 exitcode=66"
-    max_traced = 1500 if thorough else 200
+    max_traced = 1500 if thorough else 300
     args = [binp, "run", cpath, work, str(ck.seed), str(reps), tpath if hooks else "-", str(max_hooked), str(max_traced)]
     if corrupt:
         args.append("corrupt")
@@ -192,7 +195,7 @@ def main():
             raise vlib.InfraError("harness aborted without reporting a violation")
         ck.set("aborted_after_runs", s["runs"])
         ck.finish()
-    ordinary = sum(1 for c in uniq if not c.get("alts"))
+    ordinary = sum(1 for c in uniq if not c.get("special"))
     want_hooked = 0 if not hooks else (min(max_hooked, ordinary * reps) if max_hooked else ordinary * reps)
     if s["cases"] != len(uniq) or s["runs"] != s["jobs"] or s["jobs"] != len(uniq) * 3 + want_hooked:
         raise vlib.InfraError("harness executed %s of %d x 3 + %d runs" % (s["runs"], len(uniq), want_hooked))
@@ -205,7 +208,7 @@ def main():
     ck.set("hooks_present", hooks)
     ck.set("second_runs_that_regenerated", s["second_runs_regenerating"])
     ck.set("watchdog_seconds_per_run", s["watchdog_seconds"])
-    if s["fails"] == 0 and s["second_runs_regenerating"] < len(uniq) // 4:
+    if ck._nviol == 0 and s["second_runs_regenerating"] < len(uniq) // 4:
         raise vlib.InfraError("only %d second runs rewrote a file: SecondRunChangesNothing is not exercised" % s["second_runs_regenerating"])
     hang_cases = [c for c in uniq if sum(1 for f in c["files"] if f["c"] in ("unparsable", "badgo") and not f["dir"]) >= 1
                   and any(f["c"] == "good" for f in c["files"])]
@@ -219,9 +222,9 @@ def main():
         ck.notes.append("model drift: the error count in the message differs from the number of failing files in %d runs" % s["error_count_drift"])
 
     if hooks:
-        if s["fails"] == 0 and (s["hook_events"] < 8 * s["hooked_runs"] or s["traced_runs"] == 0):
+        if ck._nviol == 0 and (s["hook_events"] < 8 * s["hooked_runs"] or s["traced_runs"] == 0):
             raise vlib.InfraError("the hook fired only %d times in %d runs" % (s["hook_events"], s["runs"]))
-        if s["fails"] == 0 and s["perturbations"] == 0:
+        if ck._nviol == 0 and s["perturbations"] == 0:
             raise vlib.InfraError("no schedule perturbation happened")
         trace = open(tpath).read()
         if os.environ.get("VERIF_SELFTEST_CORRUPT") == "2":
@@ -230,9 +233,9 @@ def main():
         nlines = trace.count("\n")
         kinds = set(re.findall(r'"ev":"([a-z-]+)"', trace))
         need = {"reset", "event", "start", "modtime", "hash", "write", "error", "post", "remove", "end", "workers-done", "close-errs", "errs-drained", "exit"}
-        if not need <= kinds and s["fails"] == 0:
+        if not need <= kinds and ck._nviol == 0:
             raise vlib.InfraError("hook events never seen: %s" % sorted(need - kinds))
-        if s["fails"] == 0:
+        if ck._nviol == 0:
             tr = vlib.tlc("TraceGenerate", "Generate_trace.cfg", files={"trace.ndjson": trace}, workers=1, timeout=2400, xmx="8g")
             hwm = tr.tagged("HWM")
             if tr.violated and tr.violated != "Deadlock":
